@@ -9,7 +9,7 @@ def walk(ops, o):
         if i >= len(o):
             return
         tag = o[i][0]
-        if tag == 888888:
+        if tag == 18446744073710440504:
             yield op, {"kind": "panic"}
             return
         if tag == 10:
